@@ -65,6 +65,10 @@ theorem φDE_le (w : World) : φDE w ≤ 1714 := by
 
 theorem φIO_poll (w : World) : φIO w ≤ pollFuel := by have := φIO_le w; have := pollFuel_val; omega
 theorem φLW_poll (w : World) : φLW w ≤ pollFuel := by have := φLW_le w; have := pollFuel_val; omega
+theorem φLF_poll (w : World) (which : Nat) : φLF w which ≤ pollFuel := by
+  unfold φLF; split
+  · exact φIO_poll w
+  · have := pollFuel_val; omega
 theorem φDWR_poll (w : World) (y : Bool) : φDWR w y ≤ pollFuel := by
   have := φDWR_le w y; have := mS_le w; have := pollFuel_val; omega
 
@@ -84,12 +88,12 @@ theorem poll_post (w : World) (h : PhaseV w.view w.fut) : Post (World.poll w) :=
     | stepWrite ctx pkt bytes written len now => exact i3 _ _ _ _ _ _ _ (φIO_poll _) hpc
     | stepFlush ctx pkt now => exact i4 _ _ _ _ (φIO_poll _) hpc
     | connWrite bytes => exact i7 _ _ _ (φLW_poll _) hpc
-    | connFlush => exact i8 _ _ (φIO_poll _) hpc
+    | connFlush => exact i8 _ 0 (φLF_poll _ _) hpc
     | connRead => exact i9 _ (φIO_poll _) hpc
     | q0Write bytes => exact i7 _ _ _ (φLW_poll _) hpc
-    | q0Flush => exact i8 _ _ (φIO_poll _) hpc
+    | q0Flush => exact i8 _ 1 (φLF_poll _ _) hpc
     | discWrite bytes => exact i7 _ _ _ (φLW_poll _) hpc
-    | discFlush => exact i8 _ _ (φIO_poll _) hpc
+    | discFlush => exact i8 _ 2 (φLF_poll _ _) hpc
     | waitRead outer deadline yielded => exact i13 _ _ _ _ (φDWR_poll _ _) hpc.1 hpc.2.2.2.1
 
 theorem Post_goLoop (n : Nat) (w : World) (h : Post w) : Post (World.goLoop n w) := by
@@ -151,7 +155,7 @@ theorem PhaseV_pfx {v : View} {fut : Option Pc} (h : PhaseV v fut) : DeadOK v :=
     | q0Write bytes => exact LocalPre.pfx h
     | q0Flush => exact LocalFlushPre.pfx h
     | discWrite bytes => exact LocalPre.pfx h
-    | discFlush => exact LocalFlushPre.pfx h
+    | discFlush => exact h.2.2.1
     | waitRead outer deadline yielded => exact h.1.1.pfx
 
 /-- Dropping a future that is not inside an operation-local write leaves the invariant intact: the
@@ -169,7 +173,7 @@ theorem cancel_phase {v : View} {fut : Option Pc} (h : PhaseV v fut) (hnt : tear
     | q0Write bytes => simp [tearsPacket] at hnt
     | q0Flush => exact PhaseV.live (LocalFlushPre.flushPre h (by decide))
     | discWrite bytes => simp [tearsPacket] at hnt
-    | discFlush => exact PhaseV.live (LocalFlushPre.flushPre h (by decide))
+    | discFlush => exact PhaseV.dead h.2.1 h.2.2.1
     | waitRead outer deadline yielded => exact PhaseV.live (h.1.1.flushPre h.2.1)
 
 theorem PhaseV_net {v : View} {pc : Pc} (h : PhaseV v (some pc)) : v.net = true := by
@@ -953,7 +957,11 @@ theorem PhaseV_wire {v : View} {fut : Option Pc} (h : PhaseV v fut)
     | q0Write bytes => exact ofLocal (which := 1) (by decide) h (Or.inl rfl)
     | q0Flush => exact ofFlush rfl (LocalFlushPre.flushPre h (by decide))
     | discWrite bytes => exact ofLocal (which := 2) (by decide) h (Or.inr rfl)
-    | discFlush => exact ofFlush rfl (LocalFlushPre.flushPre h (by decide))
+    | discFlush =>
+      -- the handle is dead and exists: the theorem's premise excludes this state
+      rcases hact with hl | ⟨hn, _⟩
+      · have := h.2.1; rw [hl] at this; cases this
+      · have := h.2.2.2; rw [hn] at this; cases this
     | waitRead outer deadline yielded => exact ofFlush rfl (h.1.1.flushPre h.2.1)
 
 /-- On a live connection the facts of `Lv` hold, at every await point. -/
@@ -981,7 +989,7 @@ theorem PhaseV_lv {v : View} {fut : Option Pc} (h : PhaseV v fut) (hlive : v.liv
     | q0Write bytes => exact ofLocal (which := 1) (by decide) h
     | q0Flush => exact ofFlush (LocalFlushPre.flushPre h (by decide))
     | discWrite bytes => exact ofLocal (which := 2) (by decide) h
-    | discFlush => exact ofFlush (LocalFlushPre.flushPre h (by decide))
+    | discFlush => have := h.2.1; rw [hlive] at this; cases this
     | waitRead outer deadline yielded => exact ofFlush (h.1.1.flushPre h.2.1)
 
 /-- A connection is live only after an accepted CONNACK. -/
